@@ -9,7 +9,7 @@
 (***************************************************************************)
 EXTENDS MPSyntaxDefs
 CONSTANT Size       \* "quick" | "full"
-StrIds == IF Size = "quick" THEN {"plain", "dquote", "backslash", "nonascii", "delims", "empty", "numlike", "newline"}
+StrIds == IF Size = "quick" THEN {"plain", "dquote", "backslash", "nonascii", "delims", "empty", "numlike", "newline", "trailbs", "boollike"}
           ELSE {"plain", "spaces", "dquote", "squote", "backslash", "nonascii", "delims", "empty", "numlike", "boollike", "padded", "newline", "hash", "trailbs"}
 NumIds == IF Size = "quick" THEN {"int", "negint", "dec", "smallexp", "bigexp", "bigint"}
           ELSE {"int", "zero", "negint", "bigint", "dec", "negdec", "smallexp", "bigexp", "exp22", "tenth", "whole", "tiny"}
